@@ -8,11 +8,16 @@
       C10, and that the writers accept, C01/C02), at any depth, through by-name references — for
       plain schemas whose records have pairwise distinct field names;
     * `c20_exact_count`        — `generate_many(schema, n)` yields exactly `n` values.
-  Termination is NOT claimed: `gen_data` always generates ten items per array / map, so on a type
-  that refers to itself through an array or map it never returns (known finding F6); the theorems
-  speak about the values that are returned.  Logical types: harness only.
+    * `c20_terminates_tree`    — on a schema without by-name references (a finite tree) `gen_data` returns — a
+      value, or the ValueError of an empty enum / union — whatever the oracle does: a budget equal to the schema's
+      depth is enough;
+    * `c20_nontermination_counterexample` — termination is NOT claimed beyond that, and cannot be: `gen_data` always
+      generates ten items per array / map, so on a type that refers to itself through an array it never returns, for
+      every oracle and every budget (known finding F6; the record `Node {children: array<Node>}`).
+  The conformance theorems speak about the values that are returned.  Logical types: harness only.
 -/
 import Proofs.Generate
+import Proofs.GenerateTerm
 
 open Generate GenProofs
 
@@ -35,3 +40,21 @@ example : c20schema.fieldsOk = true ∧ Env.fieldsOk [] = true := by decide
 example : (match genData 5 [] (fun k => 7 * k + 3) c20schema 0 with
     | .ok (.dict [(.str "u", _), (.str "e", .str _), (.str "xs", .list xs)], _) => xs.length == 10
     | _ => false) = true := by decide +kernel
+
+/-! ### termination -/
+open GenTerm
+
+/-- **C20 (termination, tree schemas).** on a schema without by-name references `gen_data` returns (a value or a
+    ValueError for an empty enum / union), whatever the random source does: a budget of the schema's depth is enough -/
+theorem c20_terminates_tree (env : Env) (ρ : Rand) (fuel : Nat) (s : Schema) (ht : treeS s = true) (hd : depthS s ≤ fuel)
+    (i : Nat) : genData fuel env ρ s i ≠ .error .fuel :=
+  terminates_tree env ρ fuel s ht hd i
+
+/-- **F6, as a theorem about the model**: the tree type `Node {children: array<Node>}` is never generated, for every
+    oracle, every budget and every position of the oracle -/
+theorem c20_nontermination_counterexample (ρ : Rand) (fuel i : Nat) :
+    genData fuel c20env ρ (.ref "Node") i = .error .fuel ∧ genData fuel c20env ρ c20node i = .error .fuel :=
+  ⟨(never_returns ρ fuel i).1, (never_returns ρ fuel i).2.1⟩
+
+/-! non-vacuity of `c20_terminates_tree`: the schema of the example above is a tree of depth 3 -/
+example : treeS c20schema = true ∧ depthS c20schema ≤ 3 := by decide
